@@ -381,6 +381,8 @@ func stateRules(c *Ctx) {
 				c.bad("STATE", key, w.at.Pos(), fmt.Sprintf("%s stores data computed from its arguments into package-level %s with no lock: calls that overlap (two goroutines) share that memory and each works on what the other wrote, so the result is no longer a function of the call's own arguments", short1, w.glob.Name()))
 			} else if opq {
 				c.undecided("STATE", key, w.at.Pos(), fmt.Sprintf("%s writes package-level %s at run time; whether the data depends on the arguments is not visible", short1, w.glob.Name()))
+			} else if flagAt := flagRaisedBefore(g, w.at, w.glob); flagAt != nil {
+				c.bad("STATE", key, w.at.Pos(), fmt.Sprintf("%s fills package-level %s on first use, and the flag that says \"already built\" is raised (at %s) BEFORE the filling is done, with no lock or sync.Once: a second caller that arrives in between sees the flag, skips the building and reads a table that is still partly empty", short1, w.glob.Name(), c.W.pos(flagAt.Pos())))
 			} else {
 				c.undecided("STATE", key, w.at.Pos(), fmt.Sprintf("%s writes package-level %s at run time with data that does not depend on its arguments (lazy initialisation); not synchronised", short1, w.glob.Name()))
 			}
@@ -4051,4 +4053,68 @@ func runeNarrowed(c *Ctx, g *ssa.Function, short1 string) {
 		}
 		c.bad("STATE", "rune-narrowed:"+short1, cv.Pos(), fmt.Sprintf("%s ranges over a text letter by letter and writes each letter on as byte(letter) without testing its size: a non-ASCII letter is cut to its low byte and becomes a different, valid-looking letter (U+0141 'Ł' is written as 'A'), and a multi-byte letter no longer takes the room it had", short1))
 	})
+}
+
+
+// flagRaisedBefore: in g, a package-level flag (a bool set to true, an integer set or swapped to non-zero
+// through sync/atomic) is written at a point that dominates the write `at` into the package-level table tbl,
+// and g also reads that flag: "built" is announced before the building.
+func flagRaisedBefore(g *ssa.Function, at ssa.Instruction, tbl *ssa.Global) ssa.Instruction {
+	var raised ssa.Instruction
+	var flag *ssa.Global
+	eachInstr(g, func(i ssa.Instruction) {
+		if raised != nil {
+			return
+		}
+		switch x := i.(type) {
+		case *ssa.Store:
+			gl, isG := x.Addr.(*ssa.Global)
+			if !isG || gl == tbl {
+				return
+			}
+			k, isC := x.Val.(*ssa.Const)
+			if !isC || k.Value == nil || !(k.Value.ExactString() == "true" || k.Value.ExactString() == "1") {
+				return
+			}
+			if domInstr(x, at) {
+				raised, flag = x, gl
+			}
+		case *ssa.Call:
+			n := calleeName(x)
+			if !strings.HasPrefix(n, "sync/atomic.CompareAndSwap") && !strings.HasPrefix(n, "sync/atomic.Store") && !strings.HasSuffix(n, ").CompareAndSwap") && !(strings.HasPrefix(n, "(*sync/atomic.") && strings.HasSuffix(n, ").Store")) {
+				return
+			}
+			if len(x.Call.Args) == 0 {
+				return
+			}
+			gl, isG := x.Call.Args[0].(*ssa.Global)
+			if !isG || gl == tbl {
+				return
+			}
+			if domInstr(x, at) {
+				raised, flag = x, gl
+			}
+		}
+	})
+	if raised == nil {
+		return nil
+	}
+	// the flag is what decides whether to build: g reads it
+	reads := false
+	eachInstr(g, func(i ssa.Instruction) {
+		switch x := i.(type) {
+		case *ssa.UnOp:
+			if x.Op.String() == "*" && x.X == ssa.Value(flag) {
+				reads = true
+			}
+		case *ssa.Call:
+			if len(x.Call.Args) > 0 && x.Call.Args[0] == ssa.Value(flag) && strings.Contains(calleeName(x), "atomic") {
+				reads = true
+			}
+		}
+	})
+	if !reads {
+		return nil
+	}
+	return raised
 }
